@@ -99,7 +99,9 @@ def extra_checks(ctx):
     from harness.models import world as impl_world
     rng = random.Random(ctx.seed * 7907 + 10)
     n = 200 if ctx.tier == 'quick' else 4000
-    scen = list(_WorldStream.generate(rng, n))
+    corpus = sorted((core.VERIF / 'corpus' / 'C10' / 'world').glob('*.scn'))
+    scen = [[ln for ln in f.read_text().splitlines() if ln.strip() and not ln.startswith('#')] for f in corpus] + \
+        list(_WorldStream.generate(rng, n))
     divs, nontriv, impl_obs, _ = core.correspondence(ctx, _WorldStream, impl_world, scen, 'world')
     if divs:
         ctx.broken.append({'kind': 'correspondence', 'stream': 'world', 'count': len(divs), 'first': divs[0]})
